@@ -212,7 +212,13 @@ class BeliefPropagationDecoder(BaseBlockDecoder[Union[LinearBlockCodeEncoder, LD
         self.n_c = self.H.size(0)
         self.prep_edge_ind()
         if not self.standard:
-            self.idx_mess_t = torch.where(self.G.sum(0) == 1)[0]
+            # Position of message bit i in the codeword: the column of G equal to the i-th unit vector
+            unit_columns = [torch.where((self.G == torch.eye(self.k)[:, i : i + 1]).all(dim=0))[0] for i in range(self.k)]
+            if all(cols.numel() > 0 for cols in unit_columns):
+                self.idx_mess_t = torch.stack([cols[0] for cols in unit_columns])
+            else:
+                # Non-systematic generator: the message is recovered from the decoded codeword by the encoder's inverse
+                self.idx_mess_t = None
 
     def prep_edge_ind(self):
         """Prepare edge indices and map structures for the Tanner graph.
@@ -437,7 +443,7 @@ class BeliefPropagationDecoder(BaseBlockDecoder[Union[LinearBlockCodeEncoder, LD
             self.ext_ec = [ext_ec.to(self.device) for ext_ec in self.ext_ec]
             self.ext_ce = [ext_ce.to(self.device) for ext_ce in self.ext_ce]
             self.cv_order = self.cv_order.to(self.device)
-            if not self.standard:
+            if not self.standard and self.idx_mess_t is not None:
                 self.idx_mess_t = self.idx_mess_t.to(self.device)
 
         def decode_block(received_block: torch.Tensor) -> torch.Tensor:
@@ -452,11 +458,14 @@ class BeliefPropagationDecoder(BaseBlockDecoder[Union[LinearBlockCodeEncoder, LD
                 cv = self.compute_cv(vc)
                 messages = self.marginalize(cv, received_block.view(-1, L))
             decoded_block = messages.view(B, L)
-            idx_mess = self.idx_mess_t.unsqueeze(0).unsqueeze(0).repeat_interleave(B, dim=0).to(self.device)
-            message_llr = decoded_block.view(B, 1, -1).gather(2, idx_mess).contiguous()
+            if self.idx_mess_t is None:
+                decoded_info = self.encoder.inverse_encode(sign_to_bin(torch.sign(decoded_block)))[0]
+            else:
+                idx_mess = self.idx_mess_t.unsqueeze(0).unsqueeze(0).repeat_interleave(B, dim=0).to(self.device)
+                message_llr = decoded_block.view(B, 1, -1).gather(2, idx_mess).contiguous()
 
-            decoded_llr = message_llr.view(B, -1)
-            decoded_info = sign_to_bin(torch.sign(decoded_llr))
+                decoded_llr = message_llr.view(B, -1)
+                decoded_info = sign_to_bin(torch.sign(decoded_llr))
             if self.return_soft:
                 return (decoded_info, decoded_block)
             return decoded_info
